@@ -133,7 +133,7 @@ func c16Tamper(r *core.Run, c c16Cipher, allValues bool) {
 }
 
 func runC16(r *core.Run) {
-	r.Rule = "E1: LeaseSet2 values of the generator within 1 variation x 2 recipient key pairs x 2 cookies under a deterministic crypto/rand.Reader; for each of the selected ciphertexts EVERY byte position x the 8 single-bit flips (thorough: all 255 other values, all ciphertexts); wrong private keys; truncated / extended ciphertexts. Blinding: destination types 7 and 11, KEY certificates with and without extra payload x 6 secrets (32, 64, 65 and 128 bytes; two differing only in the last of 128 bytes) x 3 instants around UTC midnight each expressed in 4 time zones x alphas {derived, of the next day, zero, another secret's, derived with one bit changed}. Oracles: decrypt(encrypt(x)) serialises to x's bytes; any modification or wrong key => error and nil value; blinded key == A + alpha*B computed with filippo.io/edwards25519; equal across zones for the same UTC day, different across days; VerifyBlindedSignature true exactly for the derived factor (also false for all 256 factors one bit away and for alpha + k*L). Sequences: every sequence of <= 3 (thorough 4) operations over {encrypt(3 plaintexts x 2 recipients), decrypt(oldest)} without copying returned ciphertexts; after every step every earlier ciphertext is unchanged and decrypts to its own plaintext; every sequence of <= 4 (thorough 5) operations {decrypt right / wrong / []byte key, Bytes, Verify} on ONE EncryptedLeaseSet value with the verdicts and the serialisation re-checked after every step. non-trivial = distinct (ciphertext, position, value) tamperings that were rejected, round trips, and blinding tuples evaluated"
+	r.Rule = "E1: LeaseSet2 values of the generator within 1 variation x 2 recipient key pairs x 2 cookies under a deterministic crypto/rand.Reader; for each of the selected ciphertexts EVERY byte position x the 8 single-bit flips (thorough: all ciphertexts below 1500 bytes, all 255 other values for the first 24 of them); wrong private keys; truncated / extended ciphertexts. Blinding: destination types 7 and 11, KEY certificates with and without extra payload x 6 secrets (32, 64, 65 and 128 bytes; two differing only in the last of 128 bytes) x 3 instants around UTC midnight each expressed in 4 time zones x alphas {derived, of the next day, zero, another secret's, derived with one bit changed}. Oracles: decrypt(encrypt(x)) serialises to x's bytes; any modification or wrong key => error and nil value; blinded key == A + alpha*B computed with filippo.io/edwards25519; equal across zones for the same UTC day, different across days; VerifyBlindedSignature true exactly for the derived factor (also false for all 256 factors one bit away and for alpha + k*L). Sequences: every sequence of <= 3 (thorough 4) operations over {encrypt(3 plaintexts x 2 recipients), decrypt(oldest)} without copying returned ciphertexts; after every step every earlier ciphertext is unchanged and decrypts to its own plaintext; every sequence of <= 4 (thorough 5) operations {decrypt right / wrong / []byte key, Bytes, Verify} on ONE EncryptedLeaseSet value with the verdicts and the serialisation re-checked after every step. non-trivial = distinct (ciphertext, position, value) tamperings that were rejected, round trips, and blinding tuples evaluated"
 	r.Assume("alpha derivation (HKDF) is go-i2p/crypto's kdf.DeriveBlindingFactor (third party, trusted); the blinded point itself is recomputed independently")
 	det := &detReader{}
 	crand.Reader = det
@@ -235,7 +235,9 @@ func runC16(r *core.Run) {
 			continue
 		}
 		nt++
-		c16Tamper(r, c, !r.Quick())
+		// thorough: all 255 other values at every position for the first 24 ciphertexts, the eight
+		// single-bit flips for the remaining ones (keeps the tier inside its time budget)
+		c16Tamper(r, c, !r.Quick() && nt <= 24)
 		r.Distinct([]byte("tamper"), c.ct)
 	}
 	r.Note("ciphertexts_roundtripped", len(ciphers))
